@@ -81,8 +81,12 @@ def run(ctx, rep):
     rep.rule("R3.4", "the penalty in force is forwarded to the result builder and to every evaluation")
     r31(ctx, rep)
     r32(ctx, rep)
+    check_nan_reductions(ctx, rep, "R3.2")
     r33(ctx, rep)
     r34(ctx, rep)
+    rep.rule("R3.5", "the point kept in a filter entry stays the evaluated point (it does not alias solver state that is modified in place)")
+    from .c02 import r28
+    r28(ctx, rep, rule="R3.5")
 
 
 # ---------------------------------------------------------------------------
@@ -402,6 +406,55 @@ def r32(ctx, rep):
 
 
 # ---------------------------------------------------------------------------
+def check_nan_reductions(ctx, rep, rule):
+    """every nanmin/nanmax(A) in best_eval is guarded by a test that A has a
+    non-NaN entry (not all(isnan(A)) / any(isfinite(A)))"""
+    be = ctx.func(T.BEST_EVAL)
+    n = 0
+    for node in ast.walk(be.node):
+        if not (isinstance(node, ast.Call) and (dotted(node.func) or "").split(".")[-1] in ("nanmin", "nanmax", "nanargmin", "nanargmax") and node.args):
+            continue
+        n += 1
+        A = norm(node.args[0])
+        from ..astutil import enclosing_stmt
+        ctxs = enclosing_context(enclosing_stmt(node), be.node)
+        ok = False
+        for kind, test, _ in ctxs:
+            tests = test.values if isinstance(test, ast.BoolOp) and isinstance(test.op, ast.And) and kind == "if-true" else [test]
+            for t in tests:
+                neg = False
+                tt = t
+                if isinstance(tt, ast.UnaryOp) and isinstance(tt.op, ast.Not):
+                    neg = True
+                    tt = tt.operand
+                if not isinstance(tt, ast.Call):
+                    continue
+                fn = (dotted(tt.func) or "").split(".")[-1]
+                arg = tt.args[0] if tt.args else None
+                inner = (dotted(arg.func) or "").split(".")[-1] if isinstance(arg, ast.Call) else None
+                inner_arg = norm(arg.args[0]) if isinstance(arg, ast.Call) and arg.args else None
+                # resolve a mask variable: v = np.isfinite(A)
+                if isinstance(arg, ast.Name):
+                    for st in ast.walk(be.node):
+                        if isinstance(st, ast.Assign) and any(isinstance(x, ast.Name) and x.id == arg.id for x in st.targets) and isinstance(st.value, ast.Call) and st.value.args:
+                            inner = (dotted(st.value.func) or "").split(".")[-1]
+                            inner_arg = norm(st.value.args[0])
+                holds_true = (kind == "if-true") != neg   # the un-negated test holds
+                if fn == "all" and inner == "isnan" and inner_arg == A and not holds_true:
+                    ok = True
+                if fn == "any" and inner == "isfinite" and inner_arg == A and holds_true:
+                    ok = True
+        desc = f"best_eval:{node.lineno} `{norm(node)[:60]}`"
+        if ok:
+            rep.ok(rule, desc + " guarded against an all-NaN operand")
+        else:
+            rep.bad(rule, desc)
+            rep.finding(rule, be, norm(node), node.lineno,
+                        f"`{norm(node)}` is not guarded by a test that `{A}` has a defined entry (the guard tests a different array): an all-NaN selection gives NaN and an empty candidate list (IndexError escapes from minimize)")
+    if n < 4:
+        raise AnalysisError(f"only {n} nan-reductions in best_eval (floor 4)")
+
+
 def r33(ctx, rep):
     E = ctx.func(T.EVAL)
     pops = []
